@@ -448,8 +448,13 @@ func one(raw json.RawMessage) interface{} {
 		var note string
 		o.Csv, note = projectCsvFile(filepath.Join(reporter, "cloc.csv"))
 		o.Note += note
-		if !ownReporter {
-			os.Rename(reporter, filepath.Join(caseDir, "reporter-bydir"))
+		// the next command starts from the tree as rendered: no report files of this command
+		os.RemoveAll(reporter)
+		if ownReporter {
+			if err := render(tree, in); err != nil {
+				fmt.Fprintln(os.Stderr, "harness: render:", err)
+				os.Exit(2)
+			}
 		}
 	}
 	if has(in.Modes, "top") {
